@@ -101,6 +101,17 @@ impl Compiler {
         Ok(())
     }
 
+    /// The parser and the type checker accept the construct, the code generator has no
+    /// lowering for it: a diagnostic, not a `todo!()`.
+    pub(crate) fn unsupported(&self, what: &'static str, span: Span) -> aelys_common::error::AelysError {
+        CompileError::new(
+            CompileErrorKind::UnsupportedConstruct(what),
+            span,
+            self.source.clone(),
+        )
+        .into()
+    }
+
     fn too_many_constants(&self, span: Span) -> aelys_common::error::AelysError {
         CompileError::new(CompileErrorKind::TooManyConstants, span, self.source.clone()).into()
     }
